@@ -42,6 +42,10 @@ def run(ctx, idx):
     ctx.rule("C02.c", "Metadata is inert: every execute accepts **kwargs, none reads key 'Metadata', delegating subclasses forward **kwargs.")
     ctx.rule("C02.e", "No execute writes in place through one of its inputs (the alias rule of C09.a): otherwise a shared intermediate result changes under its other consumers and the outcome depends on file order.")
     ctx.rule("C02.d", "Composability: every command whose output is Data returns kind Masked on every normal return, assuming its Data inputs are Masked (induction on graph depth).")
+    ctx.rule("C02.m", "NormalizeMeanToMid keeps the end values of its curve when an extreme coincides with the neighbouring mean (C08.m's reading of the body, decided before the array analyser runs; listed here because the whole first or last segment of the conversion is wrong otherwise, for zero-inflated and two-valued columns).")
+    from .C08 import mean_to_mid_dedupe
+
+    mean_to_mid_dedupe(ctx, idx, "C02.m")
     # ---- a
     prog = A.program
     starts = [prog.methods[m] for m in ("from_source", "add_command") if m in prog.methods]
@@ -143,6 +147,14 @@ def run(ctx, idx):
 
     ctx.rule("C02.j", "NormalizeMeanToMid (and the fuzzy conversion built on it) anchors its curve on the minimum and maximum of the whole input; IgnoreZeros narrows only the means (C08.h's reading of the body, listed here because the result of the command is what C02 is about).")
     mean_to_mid_points(ctx, idx, byname_res(idx), "C02.j")
+    # ---- l: the one operator with a removable singularity
+    from .C06 import xor_quotient_guard
+
+    ctx.rule("C02.l", "The exclusive-or is evaluated where every input is fully false: the quotient by (truest - FUZZY_MIN) is selected away there (where(truest <= FUZZY_MIN, FUZZY_MIN, ...)), not patched afterwards through the masked comparison (C06.d's reading of the body; listed here because a cell that comes out missing is inherited by every command downstream, in any order).")
+    _xr = byname_res(idx).get("FuzzyXOr")
+    if _xr is None:
+        raise AnalysisError("C02.l: FuzzyXOr vanished")
+    xor_quotient_guard(ctx, "C02.l", _xr[0], _xr[1], "; numpy.ma masks the 0/0 cell and an item store through a masked index writes the data only, so the cell stays missing - and every command downstream inherits a missing cell the evaluation of the graph does not have")
     # ---- k: sharing is not a cycle
     from .coverage import false_cycle_reports
 
@@ -155,6 +167,7 @@ def run(ctx, idx):
     else:
         ctx.hold("C02.k", con_k, "mpilot/program.py", A.program_run.node.lineno, "no reference walk confuses visited with on-the-current-chain", nontrivial=False)
     # ---- b, c, d
+    lost = []
     n_exec = 0
     for key, (d, r) in sorted(R.results(idx).items()):
         n_exec += 1
@@ -224,6 +237,9 @@ def run(ctx, idx):
                                "this fuzzy producer may return an integer array: fuzzy consumers that finish with in-place float arithmetic (FuzzyUnion, CvtFromFuzzy) then fail, so the result cannot feed every fuzzy input")
                 elif isinstance(v, Arr):
                     ctx.violate("C02.d", con, d.module.rel, R.line_of(s), "returns a %s ndarray: consumers that use .mask / .compressed() / numpy.ma semantics fail or read hidden data" % v.kind)
+                elif getattr(v, "tag", None) == "opaque" or (type(v).__name__ == "Scal" and not (v.D or v.Pg) and v.const is None):
+                    # the analyser lost track of the value (inputs went through a construct it does not follow): no verdict
+                    lost.append("C02.d: %s line %d: the returned value could not be followed through the body (it comes out of a construct outside the array analyser's vocabulary)" % (d.cls.name, R.line_of(s)))
                 else:
                     ctx.violate("C02.d", con, d.module.rel, R.line_of(s), "a command declaring Data output returns %s" % (getattr(v, "tag", type(v).__name__)))
     ctx.floor("C02.b", "execute bodies", n_exec, 30)
@@ -233,3 +249,5 @@ def run(ctx, idx):
 
     C03.coverage(ctx, idx, "C02.f", "C02.f", "C02.f")
     C03.readers(ctx, idx, "C02.f")
+    if lost:
+        raise AnalysisError(lost[0])
